@@ -42,7 +42,8 @@ var shapePaths = map[string]string{
 var shapePatterns = []string{"^[a-z]+$", "a`b", "^\\d+\"x\"$", "100%", "back\\\\slash", "`", "'quoted'"}
 var shapeRot = 0
 
-var shapeTexts = []string{"", " bell\a", " esc\x1b[31m red", " tag\U000E0067", " q\"uote", " back\\slash", " 100%", " {{ex.p}} and %", " tab\tnew\nline", " vt\v del\x7f"}
+var shapeTexts = []string{"", " bell\a", " esc\x1b[31m red", " tag\U000E0067", " q\"uote", " back\\slash", " 100%", " {{ex.p}} and %", " tab\tnew\nline", " vt\v del\x7f",
+	" {{ex.p}} {{ ex.p }} {{ex.q}}", " {{core.name}} {{ex.q}} {{core.name}} {{ex.p}}"}
 
 func simpleExpr(prop string) map[string]any {
 	return map[string]any{"propertyConstraints": map[string]any{prop: map[string]any{"minCount": 1}}}
